@@ -32,7 +32,7 @@ SMALL_ALPHA = ["t", "p", "--name", "-n", "-u5", "--name=x", "x", "-f", "--", "-f
 class C07(Prop):
     id = "C07"
     corr_module = "Corr.C07Corr"
-    quick_n = 2400
+    quick_n = 5000
     thorough_n = 40000
     shard_size = 160
     rule = ("signature sets (1-4 tasks, 0-5 parameters, all kinds/decorator options, aliases, one "
